@@ -129,4 +129,6 @@ FIXED_BY_SUBJECT = {
    ('C08', 'decodeOpenTypes=True, indefinite-length container, SEQUENCE OF / SET OF ANY element whose octets are 00 00 (e.g. 30 80 df8768 01 01 30 06 df876a 02 00 00 00 00): the result held the decoder-internal EndOfOctets sentinel object as that element')],
  "fix: 'Excessive components' error of an indefinite-length SEQUENCE printed the decoded members": [
    ('C08', 'indefinite-length SEQUENCE { a INTEGER } holding an INTEGER of 1900 octets followed by one component too many (30 80 02 82 07 6c 7f ff.. 02 01 01 00 00), interpreter int->str limit at its default: ValueError escaped from the message formatting instead of PyAsn1Error')],
+ "fix: deeply nested input could abort the interpreter; refuse nesting beyond 100 levels": [
+   ('C08', "b'\\x30\\x30' * 258 + b'\\x04\\x84\\x00\\x00' (some 250 constructed headers, then a cut long-form length; also 30 80 / a0 7f / 31 30 runs, with or without an indefinite wrapper in front): one-shot decode() under CPython 3.12 ended in 'Fatal Python error: _Py_CheckRecursiveCall: Cannot recover from stack overflow' - the interpreter aborts, no exception")],
 }
